@@ -441,6 +441,8 @@ func init() {
 				w = GenSharedOptionWorkload(r)
 			} else if idx%16 == 9 {
 				w = GenFoldedDefaultsWorkload(r)
+			} else if idx%16 == 1 {
+				w = GenAliasedMappingWorkload(r)
 			} else if r.Chance(2, 3) {
 				EnrichWorkload(r.Fork("enrich"), w, dir)
 			}
